@@ -243,6 +243,13 @@ def run_unit(unit, seed=0, canary=True, rlimit=None):
         if fi.is_fn and n in base_loops and base_loops[n] != getattr(fi, 'n_loops', 0):
             u.loop_changed.add(n)
             u.undecided.append(f'{n}: loop structure changed ({base_loops[n]} loop(s) on the pinned tree, {fi.n_loops} now): loop contracts are attached by ordinal and cannot be trusted')
+    # a contract part whose anchor (the k-th loop, the k-th call of a callee) is gone could not be spliced: that function is UNDECIDED in the
+    # same way (failures of it are not violations); every other function of the unit is generated and checked as usual
+    for n in g.order:
+        fi = g.fns[n]
+        if getattr(fi, 'lost_anchors', None):
+            u.loop_changed.add(n)
+            u.undecided.append(f'lost anchor: {n}: ' + '; '.join(fi.lost_anchors[:3]))
     u.wall_s = time.time() - t0
     return u
 
